@@ -282,10 +282,14 @@ static void sweep_selections(vh_ctx *c, matrix *x, size_t t, long ds)
   static const char *FN[4] = { "KMeansppCenters", "MDC", "MaxDis", "MaxDis_Fast" };
   for (which = 0; which < 4; which++) {
     uivector *s1, *st, *st2; char key[128];
-    /* selecting every object makes each row's worker result decisive for KMeansppCenters and MDC (a row whose
-       distance/rank was not computed is passed over or picked in another order); cheaper in the tsan build,
-       where only the overlap of the slices is at stake */
-    if (which < 2) n = vh_is_tsan() ? (rows < 4 ? rows : 4) : (g_full || rows <= 12) ? rows : 6;
+    /* MDC: selecting every object makes each row's worker result decisive (a row whose rank was not recomputed keeps
+       a stale rank and is picked in another order or twice); cheaper in the tsan build, where only the overlap of
+       the slices is at stake.  KMeansppCenters: its sampling loop accepts the first not yet selected object whose
+       cumulative squared distance is positive, i.e. the lowest free index whatever the distances are, so the values
+       its workers compute cannot be seen in the result; 4 selections exercise the slicing for ASan (overrun) and
+       TSan (overlap) - a skipped row of that kernel is not observable through the public interface. */
+    if (which == 0) n = rows < 4 ? rows : 4;
+    else if (which == 1) n = vh_is_tsan() ? (rows < 4 ? rows : 4) : (g_full || rows <= 12) ? rows : 6;
     else n = rows < 3 ? rows : 3;
     initUIVector(&s1); initUIVector(&st); initUIVector(&st2);
     guard_on(rows);
